@@ -492,7 +492,19 @@ impl Session<'_> {
                         // Nothing to do.
                     }
                     CurrentSessionId::ToBeRenamed { old, new } => {
-                        self.store.change_id(&old, &new).await?;
+                        match self.store.change_id(&old, &new).await {
+                            Ok(_) => {}
+                            Err(ChangeIdError::UnknownId(e)) => {
+                                if state_config.missing_server_state != MissingServerState::Allow {
+                                    return Err(ChangeIdError::UnknownId(e).into());
+                                }
+                                // There is no server-side record to rename, which is
+                                // a legitimate state for a session under this policy.
+                            }
+                            Err(e) => {
+                                return Err(e.into());
+                            }
+                        }
                     }
                     CurrentSessionId::NewlyGenerated(..) => {
                         unreachable!(
